@@ -1,5 +1,5 @@
 """C04 - dt() maps every supported spelling of an instant to the same datetime."""
-import datetime, calendar
+import datetime, calendar, re
 import numpy as np
 import pandas as pd
 from .. import proto
@@ -13,7 +13,7 @@ STATEMENT = ("for every date t in [1900, 2300): dt(t), dt of its date, of its (y
              "ymd() drops the time of day; an unambiguous (day > 12) string in the other dialect raises ValueError; dt(y,m,d) with month or "
              "day out of range is the first day of the normalised month plus d-1 days")
 LEAN_FILES = ['Basic', 'Greg', 'GenTypes', 'Bump', 'DateParse', 'NpDate', 'DateParseDriver', 'PygGen', 'Sweep', 'GregLemmas', 'GregPeriod', 'BumpLemmas',
-              'MonthLemmas', 'TokenLemmas', 'DateLemmas', 'DateStrLemmas', 'DateTextLemmas', 'NpDateLemmas', 'MonthNameLemmas', 'MonthNameStrLemmas', 'SqueezeLemmas', 'AmbiguityLemmas', 'SlashesLemmas', 'C04']
+              'MonthLemmas', 'TokenLemmas', 'DateLemmas', 'DateStrLemmas', 'DateTextLemmas', 'NpDateLemmas', 'MonthNameLemmas', 'MonthNameStrLemmas', 'SqueezeLemmas', 'AmbiguityLemmas', 'SlashesLemmas', 'DialectLemmas', 'C04']
 GENERATED = ['PygGen.Ym', 'PygGen.Num2dt', 'PygGen.Tables', 'PygGen.Np2dt', 'PygGen.DuMonths']
 RULE = ('distinct protocol lines (one spelling of one instant, or one (y, m, d) overflow triple, or one translator-grid integer) on which '
         'dt()/ymd()/dt2str() returned a value')
@@ -270,7 +270,29 @@ def spellings(t, rng, full):
     return out
 
 
+# the dialect argument is a STRING: 'UK', 'Uk', 'US' spell the same two dialects (the library's own docstring and tests write `dialect = 'US'`);
+# review4 v3 §C04.2-1 / defect C04-D6: `dt` tested `dialect == 'uk'`, so 'UK' was read as US
+DIALECT_CASE = {'uk': ['UK', 'Uk', 'uK'], 'us': ['US', 'Us', 'uS']}
+_DIALECT_LINE = re.compile(r'^(\(dt (?:ymd/)?str )(uk|us)( )')
+
+
+def respell_dialect(rng, case, p=0.35):
+    """now and then the dialect atom of a `str` line in another letter case, passed verbatim to the implementation and to the model
+    (which reads the dialect from the string: `dialectOf`); the tag gets `@<spelling>` so that the evidence shows the distribution"""
+    ln = case['lines'][0]
+    m = _DIALECT_LINE.match(ln)
+    if m is None or len(case['lines']) != 1 or rng.random() >= p:
+        return case
+    d = rng.choice(DIALECT_CASE[m.group(2)])
+    return dict(case, tag=case['tag'] + '@' + d, lines=[m.group(1) + d + ln[m.end(2):]])
+
+
 def generate(rng, tier):
+    for case in _generate(rng, tier):
+        yield respell_dialect(rng, case)
+
+
+def _generate(rng, tier):
     quick = tier == 'quick'
     # ---- translator grid: the thresholds of num2dt
     for b in (1500, 3000, 300000, 1095000, 10000101, 30001231):
@@ -437,7 +459,7 @@ UNMODELLED = ('np64-outside',)     # the model answers bad-op (instants outside 
 
 
 def compare(case, i, line, ir, mr):
-    tag = case.get('tag', '').replace('corpus:', '')
+    tag = case.get('tag', '').replace('corpus:', '').split('@')[0]
     exp = case.get('expect')
     if exp is not None:
         want = exp if exp.startswith('err') else 'ok ' + exp
@@ -531,6 +553,14 @@ def laws(rng, tier, ctx):
             checks.append(('law-numpy-' + u, L('np', s_(u), enc(tu)), safe(dt, np.datetime64(tu, u)), NP_TRUNC[u](tu)))
         if NS_MIN < tu < NS_MAX:
             checks.append(('law-numpy-ns', L('np', s_('ns'), enc(tu)), safe(dt, np.datetime64(tu, 'ns')), tu))
+        # the dialect in another letter case is the same dialect (C04-D6)
+        dU, dS = rng.choice(DIALECT_CASE['uk']), rng.choice(DIALECT_CASE['us'])
+        checks.append(('law-uk-dialect-case', L('str', dU, s_(uku)), safe(dt, uku, dialect=dU), tu))
+        checks.append(('law-us-dialect-case', L('str', dS, s_(usu)), safe(dt, usu, dialect=dS), tu))
+        checks.append(('law-ymd-uk-dialect-case', L('ymd/str', dU, s_(ukd)), safe(ymd, ukd, dialect=dU), day))
+        if t.day > 12:
+            checks.append(('law-uk-rejects-us-dialect-case', L('str', dU, s_(usu)), safe(dt, usu, dialect=dU), 'raise ValueError'))
+            checks.append(('law-us-rejects-uk-dialect-case', L('str', dS, s_(uku)), safe(dt, uku, dialect=dS), 'raise ValueError'))
         if t.day > 12:
             checks.append(('law-uk-rejects-us', L('str', 'uk', s_(uss)), safe(dt, uss), 'raise ValueError'))
             checks.append(('law-us-rejects-uk', L('str', 'us', s_(uks)), safe(dt, uks, dialect='us'), 'raise ValueError'))
